@@ -10,6 +10,11 @@ sequence of ATOMIC EVENTS (append = a producer releasing the lock, flusher: stop
 wait returning, close = the stop event being set).  The Lean model (`c12.run`) is driven with exactly this sequence and
 must predict the calls that reached the wrapped cassette (order + outcome), the flusher's end state, what is left in the
 buffer and the stored recordings.  The oracle states the property directly on the real run.
+
+Known finding K9 (`async-values-captured-by-reference`): a `set` request with `"list": true` writes the list `[val]`, and a
+program entry `{"k": "mutate", "r": r, "key": k}` is the CALLER appending to that list object later (not a request to the
+cassette).  The Lean model keeps immutable values, so such a case must say `"model": false` and skips the correspondence;
+the oracle still compares the stored recordings with the synchronous twin's (which serialised the value at save time).
 """
 import os
 import random
@@ -17,6 +22,8 @@ import random
 from harness.engine import Prop, InfraError, _impl_worker
 
 MAX_KEYS = 3
+K9 = 'async-values-captured-by-reference'
+K9_PREFIX = 'a value mutated by the caller after the write was requested is stored in its mutated form'
 
 
 # ------------------------------------------------------------------------------------------------------------------
@@ -33,6 +40,43 @@ def wire_op(p, q, op):
         d['key'] = op['key']
         d['val'] = op['val']
     return d
+
+
+def is_request(op):
+    """False for the caller-side action `mutate` (no request reaches the cassette)"""
+    return op['k'] != 'mutate'
+
+
+def has_mutation(case):
+    return any(not is_request(op) for prog in case['programs'] for op in prog)
+
+
+def request_positions(case):
+    """per producer: program positions of its requests (program position = request number unless it mutates values)"""
+    return [[q for q, op in enumerate(prog) if is_request(op)] for prog in case['programs']]
+
+
+def op_value(op, lists, p):
+    """the value handed to set_data: the number, or (K9 cases) a fresh list object remembered for later mutation"""
+    if op.get('list'):
+        v = [op['val']]
+        lists[(p, op['r'], op['key'])] = v
+        return v
+    return op['val']
+
+
+def scalar(v):
+    return v[0] if isinstance(v, list) and v else v
+
+
+def unmutated(store):
+    """the store with every list value reduced to the element it was written with"""
+    out = []
+    for n, r in store:
+        saved = r['saved']
+        out.append([n, dict(r, data=[[k, scalar(v)] for k, v in r['data']],
+                            saved=None if saved is None else [[[k, scalar(v)] for k, v in saved[0]], saved[1]])])
+    return out
 
 
 def op_desc(p, op):
@@ -67,7 +111,7 @@ def _classes():
     class SpyRecording(MemoryRecording):
         def set_data(self, key, value):
             spy, num = _REG[self.id]
-            return spy.call(('set', num, int(key[1:]), value), lambda: MemoryRecording.set_data(self, key, value))
+            return spy.call(('set', num, int(key[1:]), scalar(value)), lambda: MemoryRecording.set_data(self, key, value))
 
         def add_metadata(self, metadata):
             spy, num = _REG[self.id]
@@ -168,16 +212,24 @@ def sync_twin(case, counts):
     descs, poisoned = index_ops(case)
     spy = make_spy(None, descs, poisoned, None, None)
     trace = []
+    lists = {}
     for p, prog in enumerate(case['programs']):
         recs = {}
-        for q, op in enumerate(prog[:counts[p]]):
+        for q, op in enumerate(prog):
+            if not is_request(op):
+                # the caller mutates the value it wrote earlier (also right after the last applied request)
+                if (p, op['r'], op['key']) in lists:
+                    lists[(p, op['r'], op['key'])].append(0)
+                continue
+            if q >= counts[p]:
+                break
             if op['r'] not in recs:
                 recs[op['r']] = spy.create_new_recording('Cat')
                 spy.adopt(recs[op['r']], rec_id(p, op['r']))
             r = recs[op['r']]
             try:
                 if op['k'] == 'set':
-                    r.set_data('k%d' % op['key'], op['val'])
+                    r.set_data('k%d' % op['key'], op_value(op, lists, p))
                 elif op['k'] == 'meta':
                     r.add_metadata({'m%d' % op['key']: op['val']})
                 else:
@@ -185,6 +237,7 @@ def sync_twin(case, counts):
                 trace.append([p, q, True])
             except Exception:
                 trace.append([p, q, False])
+    spy.forget()
     return {'store': spy.dump(all_recs(case)), 'trace': trace}
 
 
@@ -192,6 +245,8 @@ def index_ops(case):
     descs, poisoned = {}, set()
     for p, prog in enumerate(case['programs']):
         for q, op in enumerate(prog):
+            if not is_request(op):
+                continue
             d = op_desc(p, op)
             if d in descs:
                 raise InfraError('workload is ambiguous: two requests look the same to the spy: %r' % (d,))
@@ -249,6 +304,7 @@ def run_real(case):
 
     def all_requested():
         return all(progress[p] >= len(programs[p]) for p in range(len(programs)))
+    lists = {}
 
     spy = make_spy(sched, descs, poisoned, case.get('block'), all_requested)
     c = AsyncRecordOnlyTapeCassette(spy, flush_interval=0.05, timeout_on_close=5)
@@ -284,6 +340,12 @@ def run_real(case):
             for q, op in enumerate(programs[p]):
                 if closer != 'join' and closer['p'] == p and closer['at'] == q:
                     do_close('p%d' % p)
+                if not is_request(op):
+                    if (p, op['r'], op['key']) in lists:
+                        sched.emit('mutate', p, q)
+                        lists[(p, op['r'], op['key'])].append(0)
+                    progress[p] += 1
+                    continue
                 try:
                     if op['r'] not in recs:
                         if (p, op['r']) in precreated:
@@ -294,7 +356,7 @@ def run_real(case):
                     r = recs[op['r']]
                     sched.emit('req_start', p, q)
                     if op['k'] == 'set':
-                        r.set_data('k%d' % op['key'], op['val'])
+                        r.set_data('k%d' % op['key'], op_value(op, lists, p))
                     elif op['k'] == 'meta':
                         r.add_metadata({'m%d' % op['key']: op['val']})
                     else:
@@ -326,7 +388,8 @@ def run_real(case):
 
     # ---- transcript -----------------------------------------------------------------------------------------------
     steps = []          # the atomic events, as model steps
-    appends = []        # lock-acquisition order of the producers: [p, k] = k-th critical section of producer p
+    appends = []        # lock-acquisition order of the producers: [p, k] = k-th critical section of producer p (below
+                        # mapped to the program position of its k-th request)
     n_acq = [0] * len(programs)
     close_at = None     # number of appends before the stop event was set
     contention = []     # somebody found the lock held: [who, holder, holder inside a wrapped call]
@@ -370,6 +433,8 @@ def run_real(case):
         applied.append((pq + [bool(ok)]) if pq is not None else ['?', list(desc), bool(ok)])
     fl = sched.by_name.get('flusher')
     errors = [[t.name, type(t.exc).__name__, str(t.exc)[:200]] for t in sched.threads if t.exc is not None]
+    positions = request_positions(case)
+    appends = [[p, positions[p][k] if k < len(positions[p]) else len(programs[p]) + k] for p, k in appends]
     impl = {
         'outcome': outcome,
         'abort': sched.abort_info if outcome != 'finished' else None,
@@ -607,12 +672,18 @@ class C12(Prop):
 
     def model_requests(self, case):
         impl = case.get('_impl') or {}
+        if case.get('model') is False:
+            return []       # caller-side mutation of written values: the model keeps immutable values (K9)
+        if has_mutation(case) or any(op.get('list') for prog in case['programs'] for op in prog):
+            raise InfraError('a case with list values / caller-side mutation must say "model": false')
         programs = [[wire_op(p, q, op) for q, op in enumerate(prog)] for p, prog in enumerate(case['programs'])]
         counts = impl.get('twin_counts') or [0] * len(programs)
         return [{'m': 'c12.run', 'programs': programs, 'sched': impl.get('steps', []), 'recs': all_recs(case)},
                 {'m': 'c12.sync', 'programs': [prog[:counts[p]] for p, prog in enumerate(programs)], 'recs': all_recs(case)}]
 
     def model_transcript(self, case, answers):
+        if case.get('model') is False:
+            return self.impl_view(case, case['_impl'])      # correspondence skipped, the oracle decides
         a, s = answers
         return {'applied': a['applied'], 'stopped': a['fl'] == 'stopped', 'buffered': len(a['buf']),
                 'store': norm_store(a['store']), 'twin': norm_store(s['store']),
@@ -664,10 +735,11 @@ class C12(Prop):
         elif W != A[:len(W)]:
             f.append('calls reached the wrapped cassette in an order other than the append order: %r vs %r' % (W, A))
         # the same, without the lock instrumentation: per producer program order, completed requests, real-time order
+        positions = request_positions(case)
         req = {(p, q): (a, b) for p, q, a, b in impl['requests']}
         for p, prog in enumerate(progs):
             wp = [w for w in W if w[0] == p]
-            if wp != [(p, q) for q in range(len(wp))]:
+            if wp != [(p, q) for q in positions[p][:len(wp)]]:
                 f.append('producer %d: applied %r is not a prefix of its program' % (p, wp))
         cc = impl['close_call']
         for (p, q), (a, b) in sorted(req.items()):
@@ -686,15 +758,19 @@ class C12(Prop):
             if a[0] != '?' and (a[0], a[1]) in twin_ok and twin_ok[(a[0], a[1])] != a[2]:
                 f.append('request %r %s asynchronously but %s synchronously' % ((a[0], a[1]), 'succeeded' if a[2] else 'failed',
                                                                                  'succeeded' if twin_ok[(a[0], a[1])] else 'failed'))
-        if norm_store(impl['store']) != norm_store(impl['twin']['store']):
-            f.append('stored recordings differ from synchronous recording of the same requests: %r vs %r'
-                     % (norm_store(impl['store']), norm_store(impl['twin']['store'])))
+        st_a, st_s = norm_store(impl['store']), norm_store(impl['twin']['store'])
+        if st_a != st_s:
+            if has_mutation(case) and unmutated(st_a) == unmutated(st_s):
+                f.append('%s: stored %r, synchronous recording stores %r' % (K9_PREFIX, st_a, st_s))
+            else:
+                f.append('stored recordings differ from synchronous recording of the same requests: %r vs %r' % (st_a, st_s))
         for p, prog in enumerate(progs):
             done_before_close = all(req.get((p, q), (None, None))[1] is not None and cc is not None
-                                    and req[(p, q)][1] < cc for q in range(len(prog)))
-            if done_before_close and impl['twin_counts'][p] != len(prog):
+                                    and req[(p, q)][1] < cc for q in positions[p])
+            n_applied = len({w for w in W if w[0] == p})
+            if done_before_close and n_applied != len(positions[p]):
                 f.append('producer %d finished before close() but only %d of its %d requests were applied'
-                         % (p, impl['twin_counts'][p], len(prog)))
+                         % (p, n_applied, len(positions[p])))
         if impl['blocked_during_exec']:
             f.append('callers wait for the wrapped storage: %r found the lock held by a thread that was inside a wrapped '
                      'call' % (impl['blocked_during_exec'],))
@@ -726,10 +802,22 @@ class C12(Prop):
             out.append('lock-contention')
         if impl['diverged']:
             out.append('scripted-schedule-did-not-fit')
+        if has_mutation(case):
+            out.append('caller-mutates-written-value')
+        if case.get('model') is False:
+            out.append('correspondence-skipped(model:false)')
         if 'enum' in case:
             out.append('preemptions:%d' % case['enum']['cost'])
             out.append('enumerated-workload:%d' % case['enum']['w'])
         return out
+
+    def known_finding(self, case, failures):
+        """K9 only: every failure is a stored value that differs from the synchronous twin's solely by what the caller
+        appended to the list object after the write was requested"""
+        body = [x for x in failures if not x.startswith('schedule ')]
+        if has_mutation(case) and body and all(x.startswith(K9_PREFIX) for x in body):
+            return K9
+        return None
 
     def sample_repr(self, case):
         return {k: v for k, v in case.items() if not k.startswith('_')}
